@@ -1,6 +1,6 @@
 """C05 - control flow, scoping and closures: scope table, exit algebra, declaration/assignment layering, short circuit."""
 import re
-from .core import (CheckError, find_match, arm_region, pat_str, strip_ref, origins, only_when, pat_paths,
+from .core import (builds_error, CheckError, find_match, arm_region, pat_str, strip_ref, origins, only_when, pat_paths,
                    Registry, op_local)
 
 META = {
@@ -275,7 +275,7 @@ def run(F, rep, tier):
         rep.ok('R5.5', 'Env::insert', 'does not touch parent: declares in this scope only')
     else:
         rep.viol('R5.5', 'core::Env::insert|parent', ':= consults or writes an enclosing scope', ins.loc(0))
-    errs = [c for c in ins.calls if re.search(r'NErr::\w+_error$', c.target)]
+    errs = [c for c in ins.calls if builds_error(F, c)]
     if errs and reads_field(ins, 'allow_redeclaration'):
         rep.ok('R5.5', 'Env::insert redeclaration', 'error unless allow_redeclaration')
     else:
